@@ -507,7 +507,9 @@ F_C05_step(cfg, pre, post) ==
 ----------------------------------------------------------------------------
 (* C08 service order *)
 
-Dom_C08(cfg) == ~HasPreemptiveSchedule(cfg)
+\* every configuration is in the domain; at nodes with a pre-emptive schedule (or capacitated pre-emptive slots)
+\* interrupted customers are resumed first without a choice (C12): those resumptions are exempt below
+Dom_C08(cfg) == TRUE
 
 F_C08_step(cfg, pre, post) ==
     IF ~Dom_C08(cfg) THEN {}
@@ -569,7 +571,9 @@ F_C08_step(cfg, pre, post) ==
                  prev == {b \in 1..(a-1) : post.steps[b].k = "choose" /\ post.steps[b].n = s.n}
                  byClassChange == post.ev.kind = "class_change"
                                   /\ \E b \in 1..(a-1) : post.steps[b].k = "preempt" /\ post.steps[b].j = s.i
-             IN (prev # {} /\ post.steps[SetMax(prev)].i = s.i) \/ byClassChange)
+                 resumed == (IsLive(pre, s.i) /\ CuOf(pre, s.i).intr /\ CuOf(pre, s.i).loc = s.n)
+                            \/ \E b \in 1..(a-1) : post.steps[b].k = "interrupt" /\ post.steps[b].i = s.i
+             IN (prev # {} /\ post.steps[SetMax(prev)].i = s.i) \/ byClassChange \/ resumed)
        \cup Chk("C08.class-change-preemptor-is-first", \A a \in IdxOf(post, "preempt") :
              \* after the event nobody of higher, or equal priority and earlier arrival (FIFO), is left waiting
              LET s == post.steps[a]
